@@ -53,6 +53,8 @@ def main():
         sh(f"git -C /repo worktree remove --force {wt}")
         if "C20" in props:  # the translator rewrote lean/AdaptiveModel/Gen from the patched tree: regenerate from /repo
             sh("/venv/bin/python harness/translate.py", cwd="/verif")
+        if "C08" in props or "C07" in props:  # the table dumps were rewritten from the patched tree: regenerate from /repo
+            sh("/venv/bin/python harness/integ_tables.py", cwd="/verif")
     print(json.dumps(res, indent=1))
     return res
 
